@@ -12,7 +12,7 @@ Record case := { k_in : cfg_input;
                  k_preds : list bool }.       (* the harness's mirror of the finding predicates *)
 
 Definition preds_of (i : cfg_input) : list bool :=
-  [emptied_list_saved i; edit_while_detached i].
+  [emptied_list_saved i; edit_while_detached i; odd_element_saved i].
 
 Definition check (k : case) : verdict :=
   if negb (c10_scope (k_in k)) then VSkip else
